@@ -82,7 +82,7 @@ def run(ctx: common.Ctx, prop: str):
     from autobean_refactor.models.internal import properties as props
     from harness import edits
     cases, metas = [], []
-    n_docs = ctx.scale(25, 250)
+    n_docs = ctx.scale(60, 500)
     sd.set_load_factor(1000)
     for _ in range(n_docs):
         text = small_doc(ctx.rng)
@@ -141,8 +141,10 @@ def run(ctx: common.Ctx, prop: str):
             ws = []
             for p, m in na:
                 for name, pr in edits.class_props(type(m)).items():
-                    if isinstance(pr, props.repeated_node_property) and not name.startswith('_') and len(getattr(m, name)):
-                        ws.append((p + '.' + name, getattr(m, name)))
+                    if name.startswith('raw_'):
+                        w = getattr(m, name)
+                        if isinstance(w, props.RepeatedNodeWrapper) and len(w):
+                            ws.append((p + '.' + name, w))
             if ws:
                 name, w = r.choice(ws)
                 i = r.randrange(len(w))
